@@ -94,8 +94,8 @@ type Flag struct {
 	Msg   string `json:"msg"`
 	First int    `json:"first"`
 	Last  int    `json:"last"`
-	Side  string `json:"side"` // right | left | whole | unknown
-	Kind  string `json:"kind"` // join | or | unless | static | unknown
+	Side  string `json:"side"`  // right | left | whole | unknown
+	Kind  string `json:"kind"`  // join | or | unless | static | unknown
 	Label string `json:"label"` // abstract name of the label a join problem talks about ("" otherwise)
 }
 
